@@ -4,25 +4,55 @@ import json
 import os
 V = os.path.dirname(os.path.dirname(os.path.abspath(__file__)))
 props = [json.loads(l) for l in open(os.path.join(V, 'properties.jsonl'))]
-TECH = ('machine-checked proof in Coq 8.16 over an executable Gallina model + differential correspondence '
-        '(extracted OCaml model vs implementation) + exact rational oracle for the failing-input search')
+TECH = ('machine-checked proof in Coq 8.16 (Rocq) over an executable Gallina model of the code; model tied to /repo/src on every run by '
+        'a fail-closed Python-ast translator (tables, guards, formulas) and by a differential correspondence run (extracted OCaml model vs '
+        'implementation on generated inputs); independent exact oracle searches for the failing input')
 CLAIMS = {
     'C01': ('full: soundness, completeness and uniqueness of the MNA system w.r.t. the circuit equations, reported directions, and "a valid '
             'network never fails to solve" (completeness of the executable Gauss-Jordan, Theory/Gauss.v)'),
     'C02': ('full on the model: CircuitSpec of the transformed network <-> declarative PhasorSpec (jwL, 1/(jwC), A*cis(phi) iff within resolution), '
             'RMS = peak/sqrt2, DC = real part at w=0; np.cos/np.sin/np.sqrt enter as oracle values'),
     'C03': ('full: rename / permutation / reversal / re-grounding theorems about the model functions (any sort order), API corollaries; '
-            'state-space, transient and port-impedance paths by correspondence and oracle (see C06, C10, C12)'),
+            'state-space, transient and port-impedance paths through C06/C10/C12'),
     'C04': ('full: scaling, zero and superposition (2-block and k-block) through the model of the library\'s own zeroing operations; stated on '
             'first->second flows'),
     'C05': ('full: Tellegen balance with the reporting conventions, sign theorems per element kind over an ordered field, peak/RMS/DC/time-domain forms'),
-    'C07': ('full: finite-table theorems over the regenerated Gen/Tables.v (no kind dropped, dispatch, keys read subset of keys written, guards) and '
-            'C07_faithful (branch law <-> declarative component law for all 17 kinds), one branch per component, terminals, ground rule'),
+    'C06': ('full: executable model of open_circuit_impedance/element_impedance/Voc/Isc; model result = the unique PortZ (unit test current on the '
+            'deactivated network) including the deleted-rows case; symmetry, reference independence, series/parallel, jwL, 1/(jwC); Thevenin and Norton by '
+            'uniqueness'),
+    'C07': ('full: finite-table theorems over the regenerated Gen/Tables.v (no kind dropped, dispatch, keys read subset of keys written, guards, waveform '
+            'lookup) and C07_faithful (branch law <-> declarative component law for all 17 kinds), one branch per component, terminals, ground rule'),
     'C08': ('partial: for all six waveforms and every phase the coefficients are proved to be the Fourier integrals of the translated time '
             'functions (Coquelicot; classical-reals axioms), a/b/c algebra and lookup; the mean-square/Parseval clause is stated, checked '
             'numerically, not proved'),
+    'C09': ('partial: frequency list characterised exactly over any ordered field (sorted, duplicate-free, membership); KCL and superposition of the '
+            'time functions by linearity, two-sided spectrum; "each once within the resolution" is REFUTED on the model (known finding); binary64 '
+            'rounding of the list is compared, not modelled'),
+    'C10': ('full: executable model of state_space_matrices and all output rows; ss_augmented; for every s the outputs of C(sI-A)^-1B+D solve the phasor '
+            'network and equal the solver\'s answer (uniqueness); DC gain; dimensions; source order'),
+    'C11': ('full for the inequality x^T(WA+A^TW)x <= 0 and Re(lambda) <= 0 over an ordered field; the simulated-energy clause depends on '
+            'scipy.signal.lsim and is exercised, not modelled'),
+    'C12': ('partial: KCL, element laws, i_C = C dv/dt, v_L = L di/dt for EVERY state/input pair (hence every sample whatever the integrator), rest, '
+            'input order; the integrator lsim is a Section variable (compared against an independent integrator by the harness)'),
     'C16': ('full for solutions-to-solutions (open removal, contraction by induction over the loop, re-grounding), names-only, exemption list, '
             'well-posedness preserved under wf; the no-wf variant is stated only'),
+    'C17': ('full on the model: loaders are interpreters of the regenerated loader/constructor tables; every documented kind loads to exactly its '
+            'element for all field values; notations agree; nested round trip for all trees (nested induction); no mutation (state-passing style)'),
+    'C18': ('partial: exact integer/rational model of the whole rendering pipeline; text parses back exactly; half-unit accuracy outside the carry '
+            'region (REFUTED inside: known finding); saturation; complex signs; binary64 arithmetic inside the formatter is validated on the '
+            'property\'s grid (near-tie rule), not proved'),
+    'C19': ('full on the model: every guarded parameter of every constructor (read from the regenerated table) rejects negatives and accepts 0; '
+            'duplicates / grounds / floating reference at every position and multiplicity; typed loader errors; unknown ids; stored unaltered'),
+    'C20': ('partial: history theorem (Frame for every performed operation => every result equals the isolated result) over a state-passing model of '
+            'loaders, solver and transformers; Python object identity, default-argument objects and module state are observed by the harness '
+            '(fresh-process comparison, deep fingerprints), not modelled'),
+}
+PENDING = {
+    'C13': 'harness built (live schemdraw drawings vs netlist computed from the grid program); the Coq model of the wire closure / labelling and its '
+           'theorems are not integrated yet, so the property is not claimed at proof level in this manifest',
+    'C14': 'harness built (independent label parser vs the adapter\'s solution object); the Coq model of the adapters on top of the C18 formatting '
+           'model is not integrated yet',
+    'C15': 'harness built (JSON round trips x4, declarative vs programmatic); the Coq data-path model is not integrated yet',
 }
 NOT_YET = 'not yet built in this round (planned per DESIGN.md §6; the technique applies)'
 checks = []
@@ -58,7 +88,7 @@ m = {
                                    'harness (harness/)'}],
     'checks': checks,
     'notes': 'fix: commits in /repo are listed in known_findings.json (kind=fixed).',
-    'not_applicable': [{'property_id': p['id'], 'reason': NOT_YET} for p in props if p['id'] not in CLAIMS],
+    'not_applicable': [{'property_id': p['id'], 'reason': PENDING.get(p['id'], NOT_YET)} for p in props if p['id'] not in CLAIMS],
 }
 json.dump(m, open(os.path.join(V, 'MANIFEST.json'), 'w'), indent=1)
 print('claimed', sorted(CLAIMS))
